@@ -210,11 +210,21 @@ def install() -> None:
         logging.disable(logging.CRITICAL)
 
 
-def scratch_root() -> Path:
+def scratch_base() -> str:
     base = os.environ.get("VERIF_SCRATCH")
     if not base:
         base = "/dev/shm" if os.path.isdir("/dev/shm") and os.access("/dev/shm", os.W_OK) else tempfile.gettempdir()
-    p = Path(base) / f"asimap-verif-{os.getpid()}"
+    return base
+
+
+def scratch_root() -> Path:
+    """This process's scratch directory: inside the run's directory when a run is going on (vf.run.main removes
+    that at the end), a directory of its own otherwise."""
+    run = os.environ.get("VERIF_SCRATCH_RUN")
+    if run and os.path.isdir(run):
+        p = Path(run) / f"p{os.getpid()}"
+    else:
+        p = Path(scratch_base()) / f"asimap-verif-{os.getpid()}"
     p.mkdir(parents=True, exist_ok=True)
     return p
 
